@@ -30,11 +30,14 @@ func genDescriptor(t *rapid.T, maxBody int) ref.Descriptor {
 	case 2: // registration
 		n := rapid.IntRange(4, min(12, maxBody)).Draw(t, "reg-len")
 		b := genBytes(t, n, n, "reg")
-		switch rapid.IntRange(0, 2).Draw(t, "reg-id") {
+		switch rapid.IntRange(0, 3).Draw(t, "reg-id") {
 		case 0:
 			copy(b, "DOVI")
 		case 1:
 			copy(b, "CUEI")
+		case 2:
+			// format identifiers are four exact bytes: spellings that differ in case only are other identifiers
+			copy(b, rapid.SampledFrom([]string{"dovi", "Dovi", "DOVi", "dOVI", "DoVi", "cuei", "Cuei"}).Draw(t, "reg-id-case"))
 		}
 		return ref.Descriptor{Tag: 0x05, Body: b}
 	case 3: // TTML subtitling (extension descriptor)
@@ -57,8 +60,11 @@ func genDescriptor(t *rapid.T, maxBody int) ref.Descriptor {
 		return ref.Descriptor{Tag: 0x52, Body: []byte{rapid.Byte().Draw(t, "sid")}}
 	default:
 		// incl. the DVB / ATSC descriptors that announce a codec carried in a private stream (AC-3, E-AC-3, DTS, AAC, subtitling, teletext)
-		tag := rapid.SampledFrom([]byte{0x02, 0x03, 0x09, 0x0B, 0x0C, 0x0D, 0x28, 0x97, 0xC0, 0xFE, 0x11, 0x40, 0x86, 0x6A, 0x7A, 0x6A, 0x7A, 0x7B, 0x7C, 0x81, 0xCC, 0x56, 0x59}).Draw(t, "tag")
+		tag := rapid.SampledFrom([]byte{0x02, 0x03, 0x09, 0x0B, 0x0C, 0x0D, 0x28, 0x97, 0xC0, 0xFE, 0x11, 0x40, 0x86, 0x6A, 0x7A, 0x6A, 0x7A, 0x7B, 0x7C, 0x81, 0xCC, 0x56, 0x59, 0x8A, 0x8A}).Draw(t, "tag")
 		n := rapid.IntRange(0, min(40, maxBody)).Draw(t, "body-len")
+		if rapid.IntRange(0, 3).Draw(t, "body-empty") == 0 {
+			n = 0 // descriptors may be empty (descriptor_length 0)
+		}
 		return ref.Descriptor{Tag: tag, Body: genBytes(t, n, n, "body")}
 	}
 }
@@ -110,6 +116,12 @@ func genPMT(t *rapid.T, minStreams, maxStreams int) *ref.PMT {
 		}
 		used[s.PID] = true
 		s.Descs = genDescriptors(t, 4, &budget)
+		if s.StreamType == 0x86 && budget >= 4 && rapid.IntRange(0, 2).Draw(t, "cue-desc") == 0 {
+			// an SCTE-35 stream with its cue_identifier_descriptor (tag 0x8A), with or without the cue_stream_type byte
+			d := ref.Descriptor{Tag: 0x8A, Body: genBytes(t, 0, 1, "cue-body")}
+			s.Descs = append(s.Descs, d)
+			budget -= 2 + len(d.Body)
+		}
 		if (s.StreamType == 0x06 || s.StreamType >= 0x80) && budget >= 6 && rapid.IntRange(0, 2).Draw(t, "codec-desc") == 0 {
 			// a private stream announcing its codec through a descriptor: the stream_type reported stays the one carried
 			d := ref.Descriptor{Tag: rapid.SampledFrom([]byte{0x6A, 0x7A, 0x7B, 0x7C, 0x81, 0xCC}).Draw(t, "codec-tag"), Body: genBytes(t, 1, 4, "codec-body")}
